@@ -7,6 +7,8 @@ CLAIMED = {
          "SimLoop/SimNet faithful to asyncio/UDP semantics; datagrams never corrupted; spa block constant during a transfer; quiescence between transfers."),
  "C06": ("exploration", "3.C06", "Seeded search over caller plans x reply-fault profiles x timing tables on the full real client; history oracle over calls, sends, deliveries and queue pops (bounded fresh attempts, reply attribution, duration bound, mutual exclusion, FIFO service, completion, gates). Evidence over explored seeds.",
          "SimLoop FIFO/deadline-order faithful to asyncio; gate window defined by the library's own 2 x ping frequency (+1 s and injected stall); stale same-verb replies are indistinguishable at protocol level and counted by a probe."),
+ "C07": ("exploration", "3.C07", "Seeded search over arrival sequences/timings of known, unknown, unsolicited, mis-addressed and mal-framed datagrams injected at the live connection's endpoint, with waiters active, loop stalls and client-handler suspension; queue put/pop history checked for exactly-once, capable consumer (independent verb table), head residence <= 4 polling intervals + injected stall, and re-queue iff addressed.",
+         "Inner payloads of known verbs well-formed; mean junk rate below the queue's service rate; ambiguous framing held to exactly-once/residence only."),
 }
 PENDING = {}
 NA = {
